@@ -124,6 +124,30 @@ def run(R):
         R._add(Ob("%s/reduction-no-UB" % fn, "verify", [xi], [c], DI, None, ub=True, ub_filter=nomul, portfolio=("z3", "cvc5"),
                   note="INT encoding, every raw argument except INT64_MIN: no UB site outside the series polynomial (sites whose "
                        "condition depends on a symbolic product are the polynomial's and are covered piecewise by C09/C10)"))
+    # the UB sites that depend on the series' products are covered by C09/C10 on the base interval only; they carry over to every
+    # argument because their reachability is invariant under the period and under the sign fold (same INT encoding, products
+    # uninterpreted: equal reduced arguments give identical product terms)
+    PHI_ = 205887
+    ki = z3.Int("k")
+    LIMP = 1 << 62
+    for fn, per in (("sin", 2 * PHI_), ("cos", 2 * PHI_), ("tan", PHI_)):
+        o = E.Opts(int_mode=True, mul_uf=True)
+        c1 = R.call(h, fn, [xi], opts=o)
+        c2 = R.call(h, fn, [xi + ki * per], opts=o)
+        c1.encode()
+        for side, sd in (("x>=0", z3.And(xi >= 0, xi <= per, ki >= 0)), ("x<=0", z3.And(xi <= 0, xi >= -per, ki <= 0))):
+            R._add(Ob("%s/UB-sites-periodic/%s" % (fn, side), "verify", [xi, ki], [c1, c2],
+                      z3.And(sd, xi + ki * per > -LIMP, xi + ki * per < LIMP, z3.Not(c1.res.ub_any())), None, ub=True,
+                      portfolio=("z3", "cvc5"), timeout=300,
+                      note="no UB site of %s(x) reachable on the base interval => none reachable at x + k*period, k of the sign of "
+                           "x (|argument| < 2^62): the piecewise UB-freedom of C09/C10 extends to every argument" % fn))
+    c1 = R.call(h, "tan", [xi], opts=E.Opts(int_mode=True, mul_uf=True))
+    c2 = R.call(h, "tan", [-xi], opts=E.Opts(int_mode=True, mul_uf=True, facts=(xi > 0,)))
+    c1.encode()
+    R._add(Ob("tan/UB-sites-odd", "verify", [xi], [c1, c2], z3.And(xi > 0, xi < LIMP, z3.Not(c1.res.ub_any())), None, ub=True,
+              portfolio=("z3", "cvc5"), timeout=300,
+              note="no UB site of tan(x) reachable => none reachable at -x, 0 < x < 2^62 (C10's pieces cover [0, pi]; the sign "
+                   "branch of the second run is pruned with the fact x > 0, after which both runs evaluate the same terms)"))
     # the reduced argument really is bounded: the first product of the series is x*x with |x| <= phi/2 (sin, cos), <= phi/4<<4 ..
     # (this is what makes the piecewise domain of C09/C10 sufficient; exact periodicity is proved there)
     # ------------------------------------------------------------------ asin / acos
